@@ -280,4 +280,23 @@ theorem decodeWith_crit_iff (o : Oracle) (ck aux : String) (known : List String)
       simp only [PO.run_pure, Outcome.ok.injEq] at hd ⊢
       rw [e, ← hd]; rfl
 
+theorem lookup_dropKeys (keys : List String) (k : String) (raw : List (String × Wire)) :
+    Wire.lookup k (dropKeys keys raw) = if k ∈ keys then none else Wire.lookup k raw := by
+  induction raw with
+  | nil => simp [dropKeys, Wire.lookup]
+  | cons hd tl ih =>
+    obtain ⟨k', v⟩ := hd
+    simp only [dropKeys, List.filter_cons] at ih ⊢
+    by_cases e : k' ∈ keys
+    · have : (!keys.contains k') = false := by simpa using e
+      simp only [this, Bool.false_eq_true, ↓reduceIte, ih, Wire.lookup, beq_iff_eq]
+      by_cases e2 : k = k'
+      · subst e2; simp [e]
+      · simp [e2]
+    · have : (!keys.contains k') = true := by simpa using e
+      simp only [this, ↓reduceIte, Wire.lookup, beq_iff_eq, ih]
+      by_cases e2 : k = k'
+      · subst e2; simp [e]
+      · simp [e2]
+
 end C11
